@@ -424,7 +424,15 @@ func frameHelperCase(c *mon.C, name string, n int, key, inKey [4]byte, kk int) b
 			c.Rng.Read(src)
 			payload := append([]byte(nil), src...)
 			f := ws.Frame{Header: ws.Header{Fin: true, OpCode: ws.OpBinary, Length: int64(n)}, Payload: payload}
-			det := map[string]interface{}{"helper": name, "len": n, "key": fmt.Sprintf("%x", key), "frame_key": fmt.Sprintf("%x", inKey)}
+			// the helpers work on the PAYLOAD: a frame literal that leaves Length unset, or whose payload was
+			// replaced before the length is fixed up, is masked all the same (two key rounds out of four)
+			switch kk {
+			case 2:
+				f.Header.Length = 0
+			case 3:
+				f.Header.Length = int64(n) + 3
+			}
+			det := map[string]interface{}{"helper": name, "len": n, "header_length": f.Header.Length, "key": fmt.Sprintf("%x", key), "frame_key": fmt.Sprintf("%x", inKey)}
 			fail := func(sig, what string) { c.Fail("frames/"+name+"/"+sig, name+": "+what, det) }
 			var out ws.Frame
 			copying := false
@@ -506,7 +514,7 @@ func main() {
 		Property: "C02",
 		Level:    "exploration",
 		Rule: "cases: (a) exhaustive grid payload length {0..96,127..129,255..257,1000,4095..4097,65539} x offset {0..11, 2^16+1, 2^31+2, 2^40+3} x slice alignment 0..15 x 4 keys with 32-byte canaries, " +
-			"(b) random partitions with running offset, (c) CipherReader over chunked sources x caller buffer sizes x mid-stream Reset, (d) CipherWriter over random write partitions incl. short-write destinations, (e) the six frame mask/unmask helpers x all lengths x 4 keys, the masking helpers also on frames whose header already says masked. " +
+			"(b) random partitions with running offset, (c) CipherReader over chunked sources x caller buffer sizes x mid-stream Reset, (d) CipherWriter over random write partitions incl. short-write destinations, (e) the six frame mask/unmask helpers x all lengths x 4 keys, the masking helpers also on frames whose header already says masked, and all six on frames whose Header.Length is unset or stale (the payload is what gets masked). " +
 			"Non-trivial = output compared byte-for-byte with the naive XOR reference; distinct = (length, offset mod 4, alignment, key kind) / (length class, partition size, plan, buffer) classes. Built with -race (checkptr on).",
 		Assumptions: []string{"reference ref.Mask is the one-line XOR of RFC 6455 §5.3", "offsets near MaxInt are outside what a stream can reach and are not claimed"},
 		Subs:        []mon.Sub{subGrid(), subChunks(), subReader(), subWriter(), subFrames()},
